@@ -245,7 +245,7 @@ fn base_amount(conv: &Converter, q: &ScaledQuantity) -> Option<(PhysicalQuantity
 fn system_and_fit(ctx: &mut Ctx, conv: &Converter) {
     let all: Vec<Arc<Unit>> = conv.all_units().map(|u| conv.find_unit(u.symbol()).unwrap()).collect();
     let mut r = Rng::new(ctx.seed ^ 0x5157);
-    let n = ctx.budget(60_000, 3_000_000);
+    let n = ctx.budget(60_000, 12_000_000);
     for i in 0..n {
         let u = &all[r.below(all.len())];
         let ks = keys(u);
@@ -478,7 +478,7 @@ struct Sp1 {
 fn recipes(ctx: &mut Ctx, conv: &Converter) {
     use crate::gen::recipe::{self as g, feat, GenOpts};
     let parser = cooklang::CooklangParser::new(cooklang::Extensions::all(), conv.clone());
-    let n = ctx.budget(3_000, 300_000);
+    let n = ctx.budget(3_000, 1_200_000);
     let opts = GenOpts::extended();
     // without ADVANCED_UNITS a timer may carry any unit: it is a quantity of the recipe like the others
     let no_adv = cooklang::Extensions::all() ^ cooklang::Extensions::ADVANCED_UNITS;
